@@ -1020,6 +1020,15 @@ def _widening_from(m, st, callee, args, t):
     return m.cast(st, "IntToInt", v, getattr(v, "ty", "u32"), to_ty)
 
 
+@model("core::array::<impl core::ops::index::Index<I> for [T; N]>::index", "core::array::<impl core::ops::index::Index<core::ops::range::RangeFull> for [T; N]>::index")
+def _array_index_full(m, st, callee, args, t):
+    # `&array[..]`: the same elements, as a slice
+    r = deref(m, st, args[1]) if len(args) > 1 else None
+    if isinstance(r, Adt) and r.ty.endswith("RangeFull"):
+        return args[0]
+    return None
+
+
 # ------------------------------------------------------------------------------- slices / arrays with known elements
 @model("core::slice::<impl [T]>::iter")
 def _slice_iter(m, st, callee, args, t):
